@@ -158,6 +158,11 @@ func runC01(c *kc.Ctx) {
 			}
 			done := c.Watch(90*time.Second, g.Name, g.Name+" laws", map[string]string{"group": g.Name, "a": kc.HexN(a), "b": kc.HexN(b), "P": kc.HexB(Pb), "Q": kc.HexB(Qb), "R": kc.HexB(Rb)}, "proof")
 			fails := checkLaws(g, a, b, Pb, Qb, Rb)
+			if i%4 == 0 {
+				for _, m := range constantsStable(g, Pb) {
+					fails = append(fails, lawFail{Law: "constants: " + m, A: kc.HexN(a), B: kc.HexN(b), Got: "changed"})
+				}
+			}
 			done()
 			c.Eval(1)
 			c.CountKind("laws:" + g.Name)
@@ -197,8 +202,15 @@ func runC01(c *kc.Ctx) {
 			for _, g := range f.insts {
 				done := c.Watch(90*time.Second, g.Name, g.Name+" program "+p.String(), map[string]string{"group": g.Name, "program": p.String()}, "proof")
 				got, _ := runProg(g, p, false, false)
+				// the same program on objects with a history: destinations are reused as receivers, operands
+				// are the live objects (not clones), so whatever an earlier call left in them is still there
+				gotIn, _ := runProg(g, p, true, false)
 				done()
 				pcs = append(pcs, pc{g, line, got, p})
+				if gotIn != got {
+					c.Violation("law:"+g.Name+":history-dependence", fmt.Sprintf("%s: a program gives %s on fresh objects and %s when its destination objects are reused and its operands are the live objects", g.Name, got, gotIn),
+						map[string]string{"group": g.Name, "program": p.String(), "fresh": got, "in_place": gotIn})
+				}
 			}
 		}
 	}
@@ -252,6 +264,48 @@ func runC01(c *kc.Ctx) {
 }
 
 func init() { register("C01", "proof", runC01) }
+
+// constantsStable: the identity, the generator, zero and one are values, not shared objects: accumulating in
+// place into what Null()/Base()/Zero()/One() returned must not change what they return afterwards.
+func constantsStable(g *groups.G, Pb []byte) (fails []string) {
+	G := g.Group
+	cp := groupCaps(g)
+	res := kc.Recover(func() string {
+		enc := func(p kyber.Point) string { b, _ := p.MarshalBinary(); return string(b) }
+		base := func() kyber.Point { return cp.gen() } // Base(), or e(B1,B2) where the group has no Base()
+		n0, b0 := enc(G.Point().Null()), enc(base())
+		z0, o0 := scalarVal(g, G.Scalar().Zero()), scalarVal(g, G.Scalar().One())
+		e := G.Point()
+		if err := e.UnmarshalBinary(Pb); err != nil {
+			e = base()
+		}
+		acc := G.Point().Null()
+		acc.Add(acc, e)
+		acc.Add(acc, base())
+		gen := base()
+		gen.Add(gen, gen)
+		gen.Neg(gen)
+		z := G.Scalar().Zero()
+		z.Add(z, G.Scalar().One())
+		o := G.Scalar().One()
+		o.Add(o, o)
+		o.Neg(o)
+		if enc(G.Point().Null()) != n0 || !G.Point().Add(e, G.Point().Null()).Equal(e) {
+			fails = append(fails, "Null() is no longer the identity after in-place accumulation into an earlier Null()")
+		}
+		if enc(base()) != b0 {
+			fails = append(fails, "the generator changed after in-place arithmetic on an earlier generator value")
+		}
+		if scalarVal(g, G.Scalar().Zero()) != z0 || scalarVal(g, G.Scalar().One()) != o0 {
+			fails = append(fails, "Zero()/One() changed after in-place arithmetic on an earlier Zero()/One()")
+		}
+		return ""
+	})
+	if res == "panic" {
+		fails = append(fails, "panic")
+	}
+	return fails
+}
 
 // findRepresentationDependence replays p on g; returns the first statement whose result changes when its
 // point operands are first normalised through MarshalBinary/UnmarshalBinary.
